@@ -87,7 +87,7 @@ PROPS = {
             "rule": "scripted upstream: status 100..599 and out of range, reasons incl. empty, header multisets with repeats and padding, bodies 0..700 bytes (also starting with a blank line), every kind of cut incl. inside the head and at the head/body edge; faults: connection refused, close after k bytes of the head, close after the response, late data after close"},
     "C14": {"count": {"quick": 3500, "thorough": 40000},
             "trusted": ["modelled, not verified: QBuffer/QFile read/seek/pos/atEnd, QIODevice::write refusing a negative length, QTimer::singleShot(0) = one pending call per event-loop turn; the harness devices (MemSrc, SeqSrc, LogDest) stand for QFile / sockets"],
-            "rule": "exhaustive: sources of length <= L, every block size 1..len+1, no range and every (from,to) in [0,len+1] x [-1,len+1], left to run; stop() at every turn; then random contents (to 200 000 bytes), ranges, injected open/seek/read/write failures, sequential sources delivered in arbitrary pieces"},
+            "rule": "exhaustive: sources of length <= L, every block size 1..len+1, no range and every (from,to) in [0,len+1] x [-1,len+1], left to run; stop() at every turn; a random-access source already read from (every position incl. one beyond the size, ranges starting at 0 and later, stops, faults); sequential sources holding bytes that no readyRead() announced (before a piece, between pieces, together with the end of the stream; stopped; failing destination); start() again after stop() at every turn once the stale timer has fired, with and without range; then random contents (to 200 000 bytes), ranges, positions, injected open/seek/read/write failures, sequential sources delivered in arbitrary announced/quiet pieces, restarts"},
     "C15": {"count": {"quick": 2000, "thorough": 30000},
             "trusted": SOCK_TRUSTED + SLOT_TRUSTED + ["modelled, not verified: QMap<QString,Method> insert/contains/value, QMetaObject slot lookup and signature check (a registration is `good` or not)"],
             "rule": "registries of <= 5 names (prefixes of each other, empty name, case variants, non-ASCII) through the old-style, pointer-to-member, functor, missing-slot and wrong-signature forms, with/without readAll; bodies of 0..16390 bytes, complete or truncated, in every kind of segmentation; harness slots record bytesAvailable()"},
@@ -135,7 +135,7 @@ LEVEL = {
          "loopback timing chooses the interleaving; the percent-encoding and header-map sub-models are validated by the same runs."),
  "C13": ("Theorems: a parsable upstream head is relayed with the same code, reason, per-name value multiset and body for every segmentation; refused / truncated / unparsable upstream gives exactly one 502; tie: scripted upstream servers over loopback.",
          "as C12."),
- "C14": ("Theorems over the copier state machine for every source, block size >= 1 and range: left to run it writes exactly src[from..min to (len-1)] (termination of the block loop included), one completion after the last write; failures give error then one completion; after stop() nothing more is written or signalled; sequential sources in arbitrary pieces; tie: exhaustive small sources x blocks x ranges x stop points on the real QIODeviceCopier with instrumented devices.",
+ "C14": ("Theorems over the copier state machine for every source, block size >= 1 and range: left to run it writes exactly src[p..min to (len-1)], p = from if > 0 else the position the source stands at (termination of the block loop included), one completion after the last write; failures give error then one completion; after stop() nothing more is written or signalled; sequential sources in arbitrary pieces, announced by readyRead() or not; a second start() after stop() copies the wanted bytes again (range start > 0) or resumes where the first run stopped; tie: exhaustive small sources x blocks x ranges x stop points on the real QIODeviceCopier with instrumented devices.",
          "devices are abstracted as byte strings with failure parameters; ranges on sequential sources are outside setRange()'s documented domain."),
  "C15": ("Theorems: exactly the registration stored under the equal path is used (last registration wins), unknown => 404, unusable => 500, and with readAll the slot observation occurs exactly once and only at a point where bytesAvailable >= contentLength, for every segmentation; tie: registries x bodies x segmentations through the real QObjectHandler.",
          "Qt's meta-object lookup is abstracted to good / not good."),
